@@ -951,7 +951,11 @@ Proof.
     set (part := strnlen (slice old (O_Email + oldmail + 1) (Z_Email - oldmail - 1)) (Z_Email - oldmail - 1)).
     pose proof (strnlen_le (slice old (O_Email + oldmail + 1) (Z_Email - oldmail - 1)) (Z_Email - oldmail - 1) ltac:(lia)) as Bp.
     fold part in Bp.
-    destruct (part <? Z_Email - oldmail - 1) eqn:Ep; [|simp_rec; auto].
+    destruct (part <? Z_Email - oldmail - 1) eqn:Ep.
+    2:{ cbn [fx_stale FIXED andb]. destruct (newmail <? Z_Email - 1) eqn:En; [|simp_rec; auto].
+        apply Z.ltb_lt in En. simp_rec. split; [reflexivity|]. split; [reflexivity|]. split.
+        - rewrite len_blit; [exact L1 | layout; lia | rewrite L1; cbn [len length Z.of_nat]; layout; lia].
+        - apply email_term_blit_behind; [exact L1 | exact E1 | layout; lia | cbn [len length Z.of_nat]; layout; lia | left; fold newmail; lia]. }
     apply Z.ltb_lt in Ep. cbn [fx_clip FIXED andb].
     set (part' := if Z_Email - newmail - 1 <=? part then Z_Email - newmail - 1 - 1 else part).
     assert (Hp' : part' <= Z_Email - newmail - 2).
@@ -1172,3 +1176,23 @@ Proof.
   - reflexivity.
   - reflexivity.
 Qed.
+
+(* ---------- fifth repair: the rest of an old name must not become the overflow part of the password ---------- *)
+Definition wit_stale_a : list Z :=    (* pro=1&sid=n&wpw=w&mvr=b&usr=U*255&mwd=p*40 *)
+  req_hdr ++ [112;114;111;61;49;38;115;105;100;61;110;38;119;112;119;61;119;38;109;118;114;61;98;38;117;115;114;61] ++ repeat 85 255 ++
+  [38;109;119;100;61] ++ repeat 112 40.
+Definition wit_stale_b : list Z :=    (* pro=1&sid=m&led=0&mvr=c&usr=bob&mwd= *)
+  req_hdr ++ [112;114;111;61;49;38;115;105;100;61;109;38;108;101;100;61;48;38;109;118;114;61;99;38;117;115;114;61;98;111;98;38;109;119;100;61].
+Definition two_forms (fx : fixes) : list Z :=
+  let d0 := {| dcfg := zeros CFG_SIZE; dcmd := None; dpv := pv0 |} in
+  let '(d1, _) := recv fx true d0 wit_stale_a in
+  let '(d2, _) := recv fx true {| dcfg := dcfg d1; dcmd := dcmd d1; dpv := pv0 |} wit_stale_b in
+  dcfg d2.
+Theorem C14_stale_tail_refuted_thm :
+  (* before the fifth repair: Password full, and behind "bob\0" the old name continues: read as password tail *)
+  slice (two_forms FIXED4) O_Email 6 = [98; 111; 98; 0; 85; 85] /\
+  strnlen (slice (two_forms FIXED4) O_LocationPwd PWD_MAX) PWD_MAX = PWD_MAX /\
+  (* after it: an empty overflow part *)
+  slice (two_forms FIXED) O_Email 6 = [98; 111; 98; 0; 0; 85] /\
+  strnlen (slice (two_forms FIXED) O_LocationPwd PWD_MAX) PWD_MAX = PWD_MAX.
+Proof. vm_compute. repeat split. Qed.
